@@ -204,3 +204,37 @@ def fault_base(path):
                 texts.append({"lo": off + lo, "hi": off + hi})
         kv.append({"k": k, "v": v, "kind": kind, "nums": nums})
     return {"kv": kv, "cuts": sorted(set(cuts)), "total": len(b), "texts": texts}
+
+
+def chain_voice(src, dst, n, qname, pats):
+    """A copy of a real voice whose duration model is one tree of n question nodes in a chain (node i: question `qname`,
+    no -> node i+1, yes -> leaf i+1; the last node: yes -> leaf n, no -> leaf n+1) with n+1 PDFs whose first mean is the PDF
+    index.  Every other section is kept; the [POSITION] ranges are recomputed.  Purely lexical, like the rest of this file."""
+    b, head, data, off, g, st, pos = load(src)
+    nstate = int(g["NUM_STATES"])
+    lines = ['QS %s { %s }' % (qname, ",".join('"%s"' % p for p in pats)), "", "{*}[2]", "{"]
+    for i in range(n):
+        nid = "0" if i == 0 else str(-i)
+        no = str(-(i + 1)) if i + 1 < n else '"dur_s2_%d"' % (n + 1)
+        lines.append(" %s %s   %s  \"dur_s2_%d\" " % (nid, qname, no, i + 1))
+    lines += ["}", "", ""]
+    tree = "\n".join(lines).encode()
+    pdf = struct.pack("<I", n + 1)
+    for k in range(1, n + 2):
+        pdf += struct.pack("<%df" % (2 * nstate), *([float(k)] + [2.0] * (nstate - 1) + [1.0] * nstate))
+    hl = head.split("\n")
+    pi = hl.index("[POSITION]")
+    di = hl.index("[DATA]")
+    out = bytearray()
+    newpos = []
+    for line in hl[pi + 1:di]:
+        k, v = line.split(":", 1)
+        rs = []
+        for w in v.split(","):
+            lo, hi = rng(w)
+            blob = pdf if k == "DURATION_PDF" else tree if k == "DURATION_TREE" else data[lo:hi + 1]
+            rs.append("%d-%d" % (len(out), len(out) + len(blob) - 1))
+            out += blob
+        newpos.append("%s:%s" % (k, ",".join(rs)))
+    newhead = "\n".join(hl[:pi + 1] + newpos + hl[di:])
+    open(dst, "wb").write(newhead.encode() + bytes(out))
